@@ -203,6 +203,9 @@ class VerificationTrailer:
         view = view[8:]
         commands = []
         while True:
+            if len(view) < 4:
+                raise ValueError(f"Failed to unpack {cls.__name__} as the end command is missing")
+
             cmd = Command.unpack(view)
             commands.append(cmd)
             view = view[4 + len(cmd.value) :]
